@@ -225,6 +225,7 @@ pub fn judge(sc: &Scenario, cfg: &Cfg, rc: &mut RCase, class: &str) -> Result<Ou
                     Some(v) => need_l += v,
                     None => ok = false,
                 },
+                Term::OtherInput(_) => ok = false,
             }
         }
         if ok && (in_lovelace < need_l || in_token < need_t) {
